@@ -10,7 +10,7 @@
 From Coq Require Import ZArith List String Bool Lia.
 From L21 Require Import Base.Outcome Raw.RawData Raw.RawGdsExport Raw.RawGdsExportSpec
                         Raw.RawGdsExport_proofs Raw.RawGdsRoundtrip_proofs Raw.RawGdsBridge_proofs
-                        Raw.RawGdsLibrary_proofs.
+                        Raw.RawGdsLibrary_proofs Raw.RawGdsNoPanic_proofs.
 From L21 Require Gds.GdsData Geom.Contains Geom.ContainsSpec Raw.RawGds.
 Import ListNotations.
 Local Open Scope Z_scope.
@@ -157,6 +157,14 @@ Theorem C07_label_inside :
   forall s p, shape_okb s = true -> label_location xcfg_fixed s = Ok p -> in_region_shape_nz s p.
 Proof. exact label_inside_nz. Qed.
 
+(** With [Polygon::contains] as found the label can lie outside: the triangle (0,0),(1,3),(1,0)
+    is labelled at (0,1) (its bounding-box centre, which the code as found wrongly reports as
+    contained); the repaired code labels it at (1,0). *)
+Theorem C07_label_inside_orig_refuted :
+  exists s p, shape_okb s = true /\ label_location xcfg_orig s = Ok p /\ ~ in_region_shape_nz s p /\
+              label_location xcfg_fixed s = Ok (mkpt 1 0).
+Proof. exact label_inside_orig_refuted. Qed.
+
 (** Second: on the shape an element comes back with, the importer's [contains] (repaired
     [Polygon::contains]; either variant of [Path::contains]) decides exactly that region, without
     overflow, for every point with i32 coordinates. *)
@@ -185,24 +193,37 @@ Theorem C07_layout_roundtrip :
                lay_annots l' = [].
 Proof. exact layout_roundtrip_spec. Qed.
 
-(** * (9) The whole library.  For every library in the input space ([exportable]) whose cells all
-    have layouts ([all_layouts]) and whose labels are unambiguous (non-zero-winding region for
-    polygons): whenever the repaired exporter returns a GDSII library, the importer model -- any
-    variant with the repaired [Polygon::contains] and the Pico row of [import_units] -- imports it
-    with the same layer table into a library that is [raw_equiv] to the source: same units, same
-    number of cells, every cell found by name with the same instances (target cell name, location,
-    reflection, angle) in order and the same shapes (layer number, purpose number, shape modulo
-    representation, lower-cased net) in order.  The nested hierarchy is handled through the C17
-    theorem on the repaired GdsDepOrder.  PARTIAL with respect to [C07_roundtrip_full]:
-    abstract-only cells are excluded, the region is the non-zero-winding one, and the success of
-    the export is a hypothesis here. *)
+(** * (9) The export never panics and never fails on the input space (layouts AND abstracts). *)
+Theorem C07_export_no_panic : forall L, exportable L -> exists g, export_lib L = Ok g.
+Proof. exact export_no_panic. Qed.
+
+(** * (10) The whole round trip.  For every library in the input space ([exportable]) whose cells
+    all have layouts ([all_layouts]) and whose labels are unambiguous (non-zero-winding region for
+    polygons): the repaired exporter returns a GDSII library, and the importer model -- any variant
+    with the repaired [Polygon::contains] and the Pico row of [import_units], in particular
+    [RG.cfg_fixed] -- imports it, with the same layer table, into a library that is [raw_equiv] to
+    the source: same units, same number of cells, every cell found by name with the same instances
+    (target cell name, location, reflection, angle) in order and the same shapes (layer number,
+    purpose number, shape modulo representation, lower-cased net) in order.  The nested hierarchy
+    is handled through the C17 theorem on the repaired GdsDepOrder.
+    PARTIAL with respect to [C07_roundtrip_full] in two points, named at the end of the file. *)
 Theorem C07_roundtrip_layouts_partial :
-  forall c L g,
+  forall c L,
     RG.fx_contains c = true -> RG.fx_pico c = true ->
     exportable L -> all_layouts L -> labels_unambiguous_nz_at label_of L ->
-    export_lib L = Ok g ->
-    exists L', RG.import_lib c (lib_layers L) g = RG.IOk L' /\ raw_equiv L L'.
-Proof. exact roundtrip_layouts. Qed.
+    exists g L', export_lib L = Ok g /\ RG.import_lib c (lib_layers L) g = RG.IOk L' /\ raw_equiv L L'.
+Proof.
+  intros c L Hc Hp Hex Hall Hun. destruct (export_no_panic L Hex) as [g Hg].
+  destruct (roundtrip_layouts c L g Hc Hp Hex Hall Hun Hg) as [L' [H1 H2]].
+  exists g, L'. split; [exact Hg|]. split; [exact H1|exact H2].
+Qed.
+
+(** * (11) The executable oracles of the correspondence run imply the specification. *)
+Theorem C07_checker_sound :
+  (forall L L', raw_equivb L L' = true -> raw_equiv L L') /\
+  (forall lab L, labels_unambiguous_nz_atb lab L = true -> labels_unambiguous_nz_at lab L) /\
+  (forall s q, in_region_shape_nzb s q = true <-> in_region_shape_nz s q).
+Proof. exact (conj raw_equivb_sound (conj labels_unambiguous_nz_atb_sound in_region_shape_nzb_spec)). Qed.
 
 (** * Non-vacuity: a library with two cells (one instantiating the other, reflected and rotated),
     a rectangle with swapped corners and a mixed-case net, a U-shaped polygon whose bounding-box
@@ -228,6 +249,36 @@ Example C07_nonvacuous :
   label_location xcfg_fixed (Rect (mkpt (-3) (-3)) (mkpt (-10) (-8))) = Ok (mkpt (-6) (-5)).
 Proof. vm_compute. repeat split; reflexivity. Qed.
 
+(** the hypotheses of (10) hold for it, and the importer model run on the model's export gives a
+    library the oracle accepts (the instance of the conclusion, by computation) *)
+Definition ex_gds : GdsData.library :=
+  Eval vm_compute in match export_lib ex_lib with Ok g => g | _ => GdsData.mkLib [] 0 zero_dates (0, 0) [] end.
+Definition ex_back : library :=
+  Eval vm_compute in match RG.import_lib RG.cfg_fixed (lib_layers ex_lib) ex_gds with RG.IOk L' => L' | _ => ex_lib end.
+
+Example C07_roundtrip_nonvacuous :
+  exportable ex_lib /\ all_layouts ex_lib /\ labels_unambiguous_nz_at label_of ex_lib /\
+  export_lib ex_lib = Ok ex_gds /\ RG.import_lib RG.cfg_fixed (lib_layers ex_lib) ex_gds = RG.IOk ex_back /\
+  raw_equivb ex_lib ex_back = true /\ lib_units ex_back = Pico.
+Proof.
+  split; [vm_compute; reflexivity|]. split; [vm_compute; reflexivity|].
+  split; [apply labels_unambiguous_nz_atb_sound; vm_compute; reflexivity|].
+  split; [vm_compute; reflexivity|]. split; [vm_compute; reflexivity|]. split; vm_compute; reflexivity.
+Qed.
+
+(** the code as found: the same library does not survive -- Pico is refused; with Nano the path is
+    exported closed, its closing segment is not axis-parallel, and the importer's `Path::contains`
+    panics on it when it tests the label of the rectangle on the same layer number *)
+Example C07_roundtrip_orig_refuted :
+  (exists g, export_lib_orig ex_lib = Ok g /\ RG.import_lib RG.cfg_orig (lib_layers ex_lib) g = RG.IErr RG.EUnits) /\
+  (let L := mklib "lib" Nano ex_layers (lib_cells ex_lib) in
+   exists g, export_lib_orig L = Ok g /\ RG.import_lib RG.cfg_orig (lib_layers L) g = RG.IPanic).
+Proof.
+  split.
+  - exists (match export_lib_orig ex_lib with Ok g => g | _ => ex_gds end). split; vm_compute; reflexivity.
+  - exists (match export_lib_orig (mklib "lib" Nano ex_layers (lib_cells ex_lib)) with Ok g => g | _ => ex_gds end). split; vm_compute; reflexivity.
+Qed.
+
 Print Assumptions C07_label_inside_rect.
 Print Assumptions C07_label_inside_path.
 Print Assumptions C07_label_inside_polygon_model.
@@ -244,6 +295,52 @@ Print Assumptions C07_shape_roundtrip_rect.
 Print Assumptions C07_shape_roundtrip_path.
 Print Assumptions C07_layout_roundtrip_model.
 Print Assumptions C07_label_inside.
+Print Assumptions C07_label_inside_orig_refuted.
 Print Assumptions C07_contains_is_region.
 Print Assumptions C07_layout_roundtrip.
+Print Assumptions C07_export_no_panic.
 Print Assumptions C07_roundtrip_layouts_partial.
+Print Assumptions C07_checker_sound.
+
+(** Pinned statements (a weakened theorem above no longer matches these). *)
+Check C07_roundtrip_layouts_partial :
+  forall c L, RG.fx_contains c = true -> RG.fx_pico c = true ->
+    exportable L -> all_layouts L -> labels_unambiguous_nz_at label_of L ->
+    exists g L', export_lib L = Ok g /\ RG.import_lib c (lib_layers L) g = RG.IOk L' /\ raw_equiv L L'.
+Check C07_export_no_panic : forall L, exportable L -> exists g, export_lib L = Ok g.
+Check C07_label_inside :
+  forall s p, shape_okb s = true -> label_location xcfg_fixed s = Ok p -> in_region_shape_nz s p.
+Check C07_label_inside_rect :
+  forall cfg p0 p1 p, label_location cfg (Rect p0 p1) = Ok p -> in_region_shape (Rect p0 p1) p.
+Check C07_label_inside_path :
+  forall cfg ps w p, label_location cfg (Path ps w) = Ok p -> manhattanb ps = true -> in_region_shape (Path ps w) p.
+Check C07_path_stays_open :
+  forall ps w spec g, export_shape xcfg_fixed (Path ps w) spec = Ok g ->
+    g = GdsData.EPath (GdsData.mkPath (fst spec) (snd spec) (map gp ps) (Some w) None None None None None []).
+Check C07_polygon_closed_once :
+  forall cfg p0 ps spec g, export_shape cfg (Polygon (p0 :: ps)) spec = Ok g ->
+    g = GdsData.EBoundary (GdsData.mkBoundary (fst spec) (snd spec) (map gp (p0 :: ps) ++ [gp p0]) None None []).
+Check C07_units_roundtrip : forall u, import_units xcfg_fixed (export_units u) = Ok u.
+Check C07_layerspec_export : forall ly k p nx, export_layerspec ly k p = Ok nx <-> resolve_lp ly k p = Some nx.
+Check C07_layerspec_import :
+  forall ly n x, (forall k l, nth_error ly k = Some l -> layer_consistent l) ->
+    let '(ly', k', p') := get_or_insert ly n x in resolve_lp ly' k' p' = Some (n, x).
+Check C07_checker_sound :
+  (forall L L', raw_equivb L L' = true -> raw_equiv L L') /\
+  (forall lab L, labels_unambiguous_nz_atb lab L = true -> labels_unambiguous_nz_at lab L) /\
+  (forall s q, in_region_shape_nzb s q = true <-> in_region_shape_nz s q).
+Check C07_path_stays_open_orig_refuted :
+  exists ps w spec xy, export_shape xcfg_orig (Path ps w) spec = Ok (mk_path spec xy w) /\ xy <> map gp ps.
+Check C07_units_roundtrip_orig_refuted :
+  import_units xcfg_orig (export_units Pico) = Err XUnits /\
+  forall u, u <> Pico -> import_units xcfg_orig (export_units u) = Ok u.
+
+(** What is missing for [C07_roundtrip_full]:
+    (a) cells that have only an abstract: their export is covered by [C07_export_no_panic], their
+        re-import (outline on layer 32767/32767, which the importer adds to the layer table; every port
+        shape on the Drawing and Pin numbers, both receiving the port's net) is under the
+        correspondence run only;
+    (b) [labels_unambiguous_nz_at] uses the non-zero-winding region for polygons where
+        [labels_unambiguous] uses the even-odd region; the two coincide when the signed crossing number
+        stays within {-1,0,1} (Geom/Contains_proofs.v [in_region_nz_iff]), which holds for simple
+        polygons by the Jordan curve theorem -- not proved here. *)
